@@ -101,7 +101,8 @@ def build(flavour='plain', verbose=True):
     except OSError:
         # somebody else finished first
         shutil.rmtree(tmp, ignore_errors=True)
-    prune(keep=h)
+    if not os.environ.get('VERIF_SCRATCH'):     # parallel development runs share the cache
+        prune(keep=h)
     if verbose:
         print('[build] %s flavour built from %s (%s)' % (flavour, REPO, h),
               file=sys.stderr)
